@@ -42,7 +42,12 @@ def parseFloat (s : List Nat) : Option Rat :=
           if r3.isEmpty || !r3.all isDigit then none
           else
             let e : Int := digitsVal r3
-            some (m * pow10 (if eneg then -e else e))
+            -- float64 range: overflow is an error (±Inf, ErrRange), underflow gives 0
+            if m == 0 then some 0
+            else if e > 400 then (if eneg then some 0 else none)
+            else
+              let v := m * pow10 (if eneg then -e else e)
+              if v ≥ (2 : Rat) ^ 1024 then none else some v
         else none
     v?.map (fun v => if neg then -v else v)
 
